@@ -33,7 +33,7 @@ CHECKS = [
        "Unary, every token with precedence has an infix parser. The run renders every tree minimally (documented table) and fully parenthesised: the real parser must yield the same AST and "
        "the reference semantics of the fully parenthesised tree is the oracle for the minimal text.",
        "Also kernel-checked on a model of the Pratt expression parser (Model/Parser.lean: parse_expression's prefix/infix loop over tokens, every rank and associativity read from the generated rule table; compared with the real parser on every case by op pexpr): "
-       "parse_renderMin — for every expression tree over literals, identifiers, the 18 binary operators, unary ! - ~, assignment, ranges, index and call, parsing the minimally parenthesised rendering gives back the tree (and parse_renderFull). Open: the text-level link scan_render."),
+       "parse_renderMin — for every expression tree over literals, identifiers, the 18 binary operators, unary ! - ~, assignment, ranges, index and call, parsing the minimally parenthesised rendering gives back the tree (and parse_renderFull). Also the text-level statement: parse_text_renderMin — scanning (scanner model) and parsing the TEXT of the minimal rendering gives back the tree, for every tree whose atoms are scannable."),
     _c("C04", "Lean theorems on the symbol-table model (tied step-by-step to the real SymbolTable) + scope-skeleton differential run against the lexical reference",
        "Kernel-checked on the symbol-table model: the innermost binding wins, a block's binding is forgotten exactly when the block ends (store restored), every name resolves after the block "
        "as before it, a name bound nowhere does not resolve. The model is compared with the real SymbolTable on random define/resolve/leave_block/enter/leave sequences; enumerated scope "
@@ -95,15 +95,15 @@ CHECKS = [
        "Kernel-checked: the property enum agrees with the generated table; every numeric getter of every layer returns the RFC bit slice of the header bytes (getter_is_slice, tcp.flags included), record-header getters the little-endian words, "
        "MAC / IPv4 text is the reference rendering, the payload starts after the header length the header announces, a header running past the capture is an error object, $n and the named layer properties descend into the layer the type field selects (VLAN → IPv6 included) and yield null on a mismatch. "
        "Field sweeps embed every value of a field in random surrounding bytes; Spec/Rfc.lean (layout table, dispatch table, reference printers) is the oracle.",
-       "Open: v6_text_is_reference as a theorem (a kernel `decide` over the 65 536 groups takes 19 minutes: exhaustive run instead); dollar_n as one theorem over `descend`."),
+       "Also kernel-checked: v6_text_is_reference (structural, not by enumeration), dollar_n ($n descends n layers, for every frame and n up to MAX_PROTO_DEPTH; beyond it a runtime error). Below a malformed header the specification is silent."),
     _c("C17", "Lean theorems on the setters (set/get, frame, invalid values, serialise-and-re-parse identities) + differential run of assignment scripts",
        "Kernel-checked: an assignment changes exactly its field (set_frame), reading it back yields the value (set_get_in_range), out-of-range and wrong-kind values are refused or reduced to the field's width (set_checked_invalid, set_cast_invalid, set_wrong_kind, set_version_refused), "
        "and the assigned header survives serialisation and re-parsing for every header kind (udp/pcap/vlan/eth/ipv4/ipv6/tcp _reparse, options included). Assignment scripts over every settable property x boundary / invalid values run through the real SetProp code and are judged byte-exactly against the RFC bit ranges.",
-       "Open: set_bytes_local as a single statement on bytes; address setters composed with the re-parse identities. After a structural assignment (type fields, lengths) nothing is demanded of the layers below."),
+       "Also kernel-checked: set_bytes_local (after assigning a numeric field the serialised header is the old one with exactly the RFC bit range replaced), and the address setters composed with the round trips (assign the text of a, serialise, re-parse, read: the text of a). After a structural assignment (type fields, lengths) nothing is demanded of the layers below."),
     _c("C18", "Lean theorems on the address parsers/printers (round trips for all addresses, acceptance of every `::` placement, rejection classes) + exhaustive shape run",
        "Kernel-checked: parse(print a) = a for every MAC, IPv4 and IPv6 address; every IPv6 text with one `::` at any position (leading and trailing included), at most 7 groups in all, any digit count and case is accepted with the reference value (v6_accepts_all); "
        "texts with the wrong number of groups, out-of-range or malformed groups are rejected. The real parsers run on all 36 (position, length) shapes of `::`, both cases, 1-4 digits, and on malformed texts; the reference parsers of Spec/Rfc.lean are the oracle.",
-       "Open: one combined theorem tying v6_accepts_all to Rfc.parseV6 (both are compared on every run)."),
+       "Also kernel-checked: the model parsers accept every text the reference parsers of the specification call standard, with the same value (mac/v4/v6_reference_standard)."),
     _c("C19", "Lean theorems on the pcap reader/writer model and on the specification's codec + differential run of the real pcap_open/read/write on generated, truncated and corrupted files",
        "Kernel-checked: the little-endian global/record header codecs invert each other; pcap_read_all on the encoding of a well-formed file returns its records; repeated read_next returns them in order, then null; "
        "read_all(f, n) returns min(n, remaining) and leaves the rest; a file cut inside record k+1 yields exactly k records then null, a corrupt record header after k records yields those k then an error object; "
